@@ -8,6 +8,7 @@ CONSTANTS
   NoBlock = "none"
   CheckAccepts = TRUE
   SimCommits = FALSE
+  WithNext = TRUE
   NextTwoLoads = FALSE
 INVARIANT TraceVisible
 INVARIANT TraceFinMonotone
